@@ -29,7 +29,7 @@ EXPLANATION = (
     'parents are derived from its body (getters resolved); whenever a recompute call on node X reports a change and writes a field of the first kind, X '
     'itself is scheduled, and for a field of the second kind every child of X is scheduled, on every path on which the change is reported; every '
     'element of the recompute set is handed to the recomputation.'
-    ' Added later; (7) the guard of the parent recursion in updateScores holds for (start node, nothing changed). (8) every change of a pending mark is followed by updateScores (directly or through a function that always recomputes) on every path. (9) every write of a node\'s search result (score or best non-book move) is followed by updateScores on every path.')
+    ' Added later; (7) the guard of the parent recursion in updateScores holds for (start node, nothing changed). (8) every change of a pending mark is followed by updateScores (directly or through a function that always recomputes) on every path. (9) every write of a node\'s search result (score or best non-book move) is followed by updateScores on every path. (10) every child contributes to the negamax maximum (no iteration of the children loop skips the update).')
 UNDECIDED = ('that scores are at the fixed point of the negamax / path-error / expansion-cost equations for every history (value-level '
              'over a DAG); of the upward (negamax / expansion cost) scheduling only the start of the walk (C19.7) is decided, not the updateThis/updateChildren flags.')
 ASSUMPTIONS = ['Serializer::serialize / deSerialize are inverse for equal type lists (utility code outside this property)']
@@ -54,6 +54,7 @@ def run(fb, rep, tier):
     c7_parents_of_start(fb, rep)
     c8_pending_marks(fb, rep)
     c9_search_result_recomputed(fb, rep)
+    c10_every_child_counts(fb, rep)
 
 
 def c4_set_ordering(fb, rep):
@@ -770,3 +771,47 @@ def c9_search_result_recomputed(fb, rep):
             rep.ob(clause, 'K2 must-pass-through', '%s: the write of %s is followed by updateScores on every path' % (f.sname.split('::')[-1], p_.split('.')[-1]), w is None, R.site(f, e),
                    '' if w is None else 'path to the exit without a recomputation: ' + ' -> '.join('B%s@%s' % x for x in w[-6:]), f.sname)
     rep.floor(clause, 'writes of a node\'s search result outside constructors', n, 2)
+
+
+# ----------------------------------------------------------------------------- .10
+
+def c10_every_child_counts(fb, rep):
+    """K2 the negamax value of a node is the maximum over its own (counted) search score and the negated values of *all* its
+    children; the special values are ordered on purpose (IGNORE < INVALID < every real score) so that a plain maximum
+    gives INVALID for a node whose children are all still unsearched.  The loop over the children in computeNegaMax must
+    therefore reach the max-update on every iteration: a child that is skipped changes the value the equations define
+    (and with it path errors and the moves offered for searching)."""
+    clause = 'C19.10'
+    fs = [x for x in fb.funcs.values() if x.has_cfg and x.sname.endswith('BookNode::computeNegaMax')]
+    if rep.need(clause, fs, 'BookNode::computeNegaMax') is None:
+        return
+    f = fs[0]
+    loops = f.natural_loops()
+    # the running maximum: negaMaxScore = max(negaMaxScore, ...)
+    upd = lambda e: e is not None and e.get('k') == 'asg' and ap(e.get('l')) == 'this.negaMaxScore' and \
+        any(isinstance(n, dict) and n.get('k') == 'call' and cname(n) == 'std::max' and any(ap(a) == 'this.negaMaxScore' for a in n.get('args', [])) for n in walk(e.get('r')))
+    n = 0
+    for h, body in sorted(loops.items()):
+        sites = [(b, e) for b in body for e in f.blocks[b]['ev'] if upd(e)]
+        if not sites:
+            continue
+        n += 1
+        latches = [b for b in body if h in f.blocks[b]['succ'] and b != h]
+        from collections import deque
+        seen, dq, leak = set(), deque((s_, (s_,)) for s_ in f.blocks[h]['succ'] if s_ in body), None
+        while dq and leak is None:
+            b, trail = dq.popleft()
+            if b in seen:
+                continue
+            seen.add(b)
+            if any(upd(e) for e in f.blocks[b]['ev']):
+                continue
+            if b in latches:
+                leak = trail
+                break
+            for s_ in f.blocks[b]['succ']:
+                if s_ in body and s_ != h:
+                    dq.append((s_, trail + (s_,)))
+        rep.ob(clause, 'K2 must-pass-through', 'computeNegaMax: every child contributes to the maximum (no iteration of the children loop skips the update)', leak is None,
+               R.site(f, sites[0][1]), '' if leak is None else 'iteration without the update: ' + ' -> '.join('B%s@%s' % (x, f.block_line(x)) for x in leak[-6:]), f.sname)
+    rep.floor(clause, 'children loops that update the negamax value', n, 1)
